@@ -292,11 +292,11 @@ def r05e(ctx):
 
 
 def run(ctx):
-    r05a(ctx)
-    r05b(ctx)
-    r05c(ctx)
-    r05d(ctx)
-    r05e(ctx)
+    ctx.guard(r05a)
+    ctx.guard(r05b)
+    ctx.guard(r05c)
+    ctx.guard(r05d)
+    ctx.guard(r05e)
 
 
 SELFTEST = {
